@@ -32,7 +32,8 @@ theorem itoa_digits (n : Nat) : (Style.itoa n) ≠ [] ∧ ∀ c ∈ Style.itoa n
   exact ⟨itoa_ne_nil n, itoa_isDigit n⟩
 
 /-- (2) An accepted configuration is safe: non-empty hook, cache size ≥ 1, non-negative preload
-    amount and timeout, well-formed colours with components 0..255. -/
+    amount and timeout, the timeout converted to nanoseconds without `int64` wrap-around,
+    well-formed colours with components 0..255. -/
 theorem accepted_safe (r : Raw) (p : Parsed) (h : postprocess r = .ok p) : Safe p := by
   exact postprocess_safe h
 
@@ -44,15 +45,41 @@ theorem rejected_names_key (r : Raw) (d : Diag) (h : postprocess r = .error d) :
     | .highlight => hexToAnsi r.highlight = none
     | .code => hexToAnsi r.code = none
     | .hook => r.hook = []
-    | .context => r.context < 0
-    | .timeout => r.timeout < 0
+    | .context => r.context < 0 ∨ r.context > maxPreload
+    | .timeout => r.timeout < 0 ∨ r.timeout > maxSeconds
     | .cacheSize => r.cacheSize < 1 := by
   exact postprocess_error h
+
+/-- The duration handed to the network code is never negative, although it is computed in
+    wrapping `int64` arithmetic: one second more than `maxSeconds` would wrap … -/
+theorem accepted_timeout_not_wrapped (r : Raw) (p : Parsed) (h : postprocess r = .ok p) :
+    0 ≤ p.timeoutNanos ∧ p.timeoutNanos < 2 ^ 63 ∧ p.timeoutNanos = r.timeout * 1000000000 := by
+  obtain ⟨_, _, _, _, _, _, _, _, _, _, h2, _, h4, _, rfl⟩ := postprocess_ok_inv h
+  have hw := wrap64_seconds h2 h4
+  show 0 ≤ wrap64 (r.timeout * 1000000000) ∧ wrap64 (r.timeout * 1000000000) < 2 ^ 63 ∧
+    wrap64 (r.timeout * 1000000000) = r.timeout * 1000000000
+  rw [hw]
+  unfold maxSeconds at h4
+  omega
+
+/-- The arithmetic done on the preload amount (`Context + 1`, `-Context - 1`, the conversions to
+    `uint` and back to `int`) stays inside `int64` — and inside `int32`'s unsigned range. -/
+theorem accepted_preload_arithmetic_exact (r : Raw) (p : Parsed) (h : postprocess r = .ok p) :
+    wrap64 (p.context + 1) = p.context + 1 ∧ wrap64 (-p.context - 1) = -p.context - 1 ∧
+    0 < p.context + 1 ∧ p.context + 1 ≤ 2 ^ 31 := by
+  obtain ⟨_, _, _, h1, h5, _⟩ := postprocess_safe h
+  unfold maxPreload at h5
+  unfold wrap64
+  omega
+
+/-- … which is why the bound is there (non-vacuity of the wrap-around the check excludes). -/
+example : wrap64 ((maxSeconds + 1) * 1000000000) < 0 := by decide
 
 /-- Conversely every configuration with valid values is accepted, unchanged but for the colours. -/
 theorem valid_accepted (r : Raw)
     (hc : (hexToAnsi r.primary).isSome ∧ (hexToAnsi r.error).isSome ∧ (hexToAnsi r.highlight).isSome ∧ (hexToAnsi r.code).isSome)
-    (hh : r.hook ≠ []) (h1 : 0 ≤ r.context) (h2 : 0 ≤ r.timeout) (h3 : 1 ≤ r.cacheSize) :
+    (hh : r.hook ≠ []) (h1 : 0 ≤ r.context) (h2 : 0 ≤ r.timeout) (h3 : 1 ≤ r.cacheSize)
+    (h4 : r.timeout ≤ maxSeconds) (h5 : r.context ≤ maxPreload) :
     ∃ p, postprocess r = .ok p ∧ p.hook = r.hook ∧ p.context = r.context ∧
       p.timeoutSeconds = r.timeout ∧ p.cacheSize = r.cacheSize := by
   obtain ⟨h1', h2', h3', h4'⟩ := hc
@@ -60,7 +87,7 @@ theorem valid_accepted (r : Raw)
   obtain ⟨ce, he⟩ := Option.isSome_iff_exists.mp h2'
   obtain ⟨ch, hh'⟩ := Option.isSome_iff_exists.mp h3'
   obtain ⟨cc, hc'⟩ := Option.isSome_iff_exists.mp h4'
-  exact ⟨_, postprocess_ok_of_valid r hp he hh' hc' hh h1 h2 h3, rfl, rfl, rfl, rfl⟩
+  exact ⟨_, postprocess_ok_of_valid r hp he hh' hc' hh h1 h2 h3 h4 h5, rfl, rfl, rfl, rfl⟩
 
 /-- (3) The built-in defaults are accepted (and hence safe). -/
 theorem defaults_accepted : ∃ p, postprocess defaults = .ok p ∧ Safe p := by
